@@ -73,6 +73,10 @@ SUMMARY = {
 'c08x':'table variant writes gap + replacement with one write_vectored call and assumes the whole replacement is still owed after a short write: only writers that override write_vectored and stop inside the second slice show it',
 'c17x':'finished stream searches park their roll buffer in a thread_local tagged with the automaton ADDRESS; a different searcher later living at that address inherits the old roll size',
 'c18x':'Interrupted after a partial fill is swallowed (fill returns Ok(true))',
+'c07y':'fill() commits its end only after the loop: a transient read error after a short first read drops bytes the reader already handed out; polling on shifts all later offsets (told the tester is fault-free for C07)',
+'c08y':'capacity = max(min(8*min, 1 MiB), 64 KiB): with a pattern >= 1 MiB nothing is freed by a roll (told the tester uses small patterns)',
+'c17y':'roll buffer Vec recycled per thread, accepted when its capacity() (not len()) is large enough: after a 64 KiB+ pattern search and an ordinary one, the next 64 KiB+ search gets a truncated buffer (told the tester uses ordinary pattern sizes)',
+'c18y':'fill() resets end to its entry value when a later read of the same call fails: bytes already consumed from the reader are lost; polling on shifts offsets',
 'c18a':'fill returns Ok(true) instead of the error when it had already buffered bytes in the same call: one-shot read errors during the initial fill vanish',
 'c18b':'closure errors of kind Interrupted are retried by calling the closure again: error swallowed, partial output duplicated',
 'c18c':'fill commits its new end only after the loop: an error on a later read of one fill discards bytes accepted earlier; polling on shifts all later offsets',
@@ -90,6 +94,10 @@ for line in sorted(open(os.path.join(ROOT, 'mutants/RESULTS-seeded.txt'))):
     m = re.search(r'\| (C\d\d) exit=(\d) class=(\S+) replay_exit=(\S+)', line)
     if not m: continue
     engine = {'C07': 'streamsim', 'C08': 'streamsim', 'C18': 'streamsim fault enumeration', 'C17': 'threadsim'}[m.group(1)]
+    if name == 'c07y':
+        engine = 'streamsim (after giving a tenth of the C07/C08 scenarios transient read errors that the caller polls through; first missed: C07 runs were fault-free by design)'
+    if name == 'c17y':
+        engine = 'threadsim (after adding 64 KiB+ patterns to single-client histories; first missed)'
     if name in ('c07x', 'c08x'):
         engine = 'streamsim (after giving the simulated reader/writer read_vectored / write_vectored overrides; invisible by construction before: std\'s default vectored methods only use the first slice)'
     if name == 'c07t':
